@@ -246,7 +246,21 @@ def _w_stage_overrun(m):
     ]
 
 
+def _w_fission_shortcut(m):
+    import exo.stdlib.scheduling as S
+    p = m.foo
+    lp = p.find_loop("i")
+    return [("fission", "G[('body', 0), ('body', 1)]:GapType.Before n=1", lambda: S.fission(p, lp.body()[1].before()))]
+
+
 WITNESSES = [
+    ("fission_idempotent_prefix_reduced_into", """
+@proc
+def foo(n: size, y: R[8]):
+    for i in seq(0, n):
+        y[3] = 4.0
+        y[3] += 9.0
+""", _w_fission_shortcut),
     ("stage_mem_window_overruns_source", """
 @proc
 def foo(n: size, x: R[n], y: R[n]):
@@ -380,6 +394,42 @@ def op_tag(p, op, descr) -> str:
             if passed:
                 tag += ":staged-buffer-passed-to-call"
             return tag
+    if op == "fission":
+        # known finding C01-fission-idempotent-shortcut: the part before the gap does not mention the loop variable,
+        # contains no reduction, and writes a buffer that the part after the gap reduces into
+        import ast
+        from exo.core.LoopIR import get_writes_of_stmts, get_reads_of_stmts
+        m = re.match(r"G(\[.*?\]):GapType\.(Before|After)", descr)
+        if m:
+            try:
+                path = ast.literal_eval(m.group(1))
+                node = p._loopir_proc
+                for attr, idx in path[:-1]:
+                    node = getattr(node, attr)[idx]
+                attr, idx = path[-1]
+                k = idx + (1 if m.group(2) == "After" else 0)
+                if isinstance(node, LoopIR.For) and attr == "body":
+                    pre, post = node.body[:k], node.body[k:]
+
+                    def reduces(ss, acc):
+                        for st in ss:
+                            if isinstance(st, LoopIR.Reduce):
+                                acc.add(st.name)
+                            for a in ("body", "orelse"):
+                                if hasattr(st, a):
+                                    reduces(getattr(st, a), acc)
+                            if isinstance(st, LoopIR.Call):
+                                reduces(st.f.body, acc)  # conservative: formal names differ, so only local reduces count
+                        return acc
+
+                    pre_red = reduces(pre, set())
+                    post_red = reduces(post, set())
+                    pre_w = {nm for nm, _ in get_writes_of_stmts(pre)}
+                    pre_mentions = {nm for nm, _ in get_reads_of_stmts(pre)}
+                    if not pre_red and node.iter not in pre_mentions and (pre_w & post_red):
+                        return ":idempotent-prefix-written-then-reduced-into"
+            except Exception:
+                pass
     return ""
 
 
